@@ -25,13 +25,18 @@ const Bufsiz = 2 // must match cmd/c10/bufsiz
 type cfg struct {
 	TypedStalled bool // an additional typed (pod) subscription whose consumer is stalled
 	Paced        bool // the driver waits for quiescence after every event (the library's internal stages never lag), and every node's own cache is then judged
-	Refilter     bool // after the stream: Refilter a stalled direct filtered subscription so that it emits more events than its buffer holds
-	Name         string
-	Tree         []hx.Spec
-	Stalled      map[string]bool // node paths whose consumer / handler is stalled
-	K            int
-	Mode         string
-	Bound        int
+	// Resume: a SLOW consumer - after the stream the stalled leaf reads ResumeRead events, ResumeMore further events are
+	// published (concurrently with those reads if ResumeConcurrent, else after them), then it drains
+	ResumeRead, ResumeMore int
+	ResumeConcurrent       bool
+	Buf                    int  // model value of EventBufsiz for this scenario (0: Bufsiz)
+	Refilter               bool // after the stream: Refilter a stalled direct filtered subscription so that it emits more events than its buffer holds
+	Name                   string
+	Tree                   []hx.Spec
+	Stalled                map[string]bool // node paths whose consumer / handler is stalled
+	K                      int
+	Mode                   string
+	Bound                  int
 }
 
 // stream: versions increase; labels alternate so that a filtered clone (l=1) sees creates and deletes
@@ -46,7 +51,7 @@ func (in *inst) finalObjs() []metav1.Object {
 		}
 		return out
 	}
-	return []metav1.Object{hx.Pod("ns", "a", fmt.Sprint(in.c.K), "l=1")}
+	return []metav1.Object{hx.Pod("ns", "a", fmt.Sprint(in.c.K+in.c.ResumeMore), "l=1")}
 }
 
 // objStream creates k distinct objects (so that a later Refilter has k membership changes to announce).
@@ -82,6 +87,9 @@ type inst struct {
 	typedGot           *[]string
 	rootList, wantList string
 	clock              int64
+	phase1             chan struct{} // closed after the first stream: slow consumers start their partial read
+	readDone           chan bool
+	pub1               int   // events published by the first stream
 	idles              int64 // SleepIdle(1) calls made by the driver: the only legitimate reason for virtual time to advance
 }
 
@@ -102,6 +110,13 @@ func (in *inst) handler(n *hx.Node) kcache.Handler {
 		OnDelete(func(o metav1.Object) { note("delete:" + hx.ObjString(o)) }).Create()
 }
 
+func (c cfg) buf() int {
+	if c.Buf > 0 {
+		return c.Buf
+	}
+	return Bufsiz
+}
+
 func (in *inst) idle() {
 	in.idles++
 	vs.SleepIdle(1)
@@ -110,6 +125,8 @@ func (in *inst) idle() {
 func (in *inst) run() {
 	in.acks = make(chan string)
 	in.release = make(chan struct{})
+	in.phase1 = make(chan struct{})
+	in.readDone = make(chan bool, 4)
 	in.root = hx.NewRoot(filter.Null())
 	in.root.Init(nil)
 	in.nodes = hx.Build(in.root.Pub, in.c.Tree, nil, "", in.handler)
@@ -122,6 +139,17 @@ func (in *inst) run() {
 			n := n
 			if in.c.Stalled[n.Path] {
 				go func() {
+					if in.c.ResumeRead > 0 {
+						<-in.phase1
+						for i := 0; i < in.c.ResumeRead; i++ {
+							ev, ok := <-n.Events()
+							if !ok {
+								break
+							}
+							n.Received = append(n.Received, hx.EventString(ev))
+						}
+						in.readDone <- true
+					}
 					<-in.release
 					n.Consume(false)
 				}()
@@ -175,6 +203,41 @@ func (in *inst) run() {
 		}
 		if in.c.Paced {
 			in.idle()
+		}
+	}
+	in.pub1 = len(in.root.Published)
+	if in.c.ResumeRead > 0 {
+		nslow := 0
+		hx.Walk(in.nodes, func(n *hx.Node) {
+			if n.IsLeaf() && in.c.Stalled[n.Path] {
+				nslow++
+			}
+		})
+		if in.c.Paced {
+			in.idle()
+		}
+		close(in.phase1)
+		if !in.c.ResumeConcurrent {
+			for i := 0; i < nslow; i++ {
+				<-in.readDone
+			}
+			if in.c.Paced {
+				in.idle()
+			}
+		}
+		for i := 1; i <= in.c.ResumeMore; i++ {
+			in.root.Publish(kcache.NewEvent(kcache.EventTypeUpdate, hx.Pod("ns", "a", fmt.Sprint(in.c.K+i), "l=1")))
+			for j := 0; j < in.healthy; j++ {
+				<-in.acks
+			}
+			if in.c.Paced {
+				in.idle()
+			}
+		}
+		if in.c.ResumeConcurrent {
+			for i := 0; i < nslow; i++ {
+				<-in.readDone
+			}
 		}
 	}
 	// "the caches stay current": every node's own cache (also a stalled one's: it is maintained by the library, not by the
@@ -274,11 +337,27 @@ func (in *inst) check(r *vs.Result) []string {
 			j++
 		}
 		min := in.c.K
-		if min > Bufsiz {
-			min = Bufsiz
+		if min > in.c.buf() {
+			min = in.c.buf()
 		}
 		if len(got) < min {
-			msgs = append(msgs, fmt.Sprintf("stalled consumer lost events within its buffer | %s drained only %v of published %v (buffer %d)", n.Path, got, pub, Bufsiz))
+			msgs = append(msgs, fmt.Sprintf("stalled consumer lost events within its buffer | %s drained only %v of published %v (buffer %d)", n.Path, got, pub, in.c.buf()))
+		}
+		if in.c.ResumeRead > 0 && in.c.Paced && !in.c.ResumeConcurrent && n.Mon == nil {
+			// a slow consumer under a paced stream: what fits is kept - the first `buffer` events of the stream, then, into
+			// the slots its reads freed, the first events published afterwards
+			var want []string
+			want = append(want, pub[:min]...)
+			room := in.c.ResumeRead
+			if room > min {
+				room = min
+			}
+			for i := 0; i < room && in.pub1+i < len(pub); i++ {
+				want = append(want, pub[in.pub1+i])
+			}
+			if strings.Join(got, " ") != strings.Join(want, " ") {
+				msgs = append(msgs, fmt.Sprintf("slow consumer lost events that fitted its buffer | %s (buffer %d, stream of %d, then %d read, then %d more published) received %v, expected %v", n.Path, in.c.buf(), in.pub1, in.c.ResumeRead, in.c.ResumeMore, got, want))
+			}
 		}
 	})
 	if in.typedGot != nil {
@@ -296,13 +375,13 @@ func (in *inst) check(r *vs.Result) []string {
 			j++
 		}
 		min := in.c.K
-		if min > Bufsiz {
-			min = Bufsiz
+		if min > in.c.buf() {
+			min = in.c.buf()
 		}
 		if !okSub {
 			msgs = append(msgs, fmt.Sprintf("stalled consumer stream not an in-order subsequence | typed subscription drained %v, published %v", got, pub))
 		} else if len(got) < min {
-			msgs = append(msgs, fmt.Sprintf("stalled consumer lost events within its buffer | typed subscription drained only %v of published %v (buffer %d)", got, pub, Bufsiz))
+			msgs = append(msgs, fmt.Sprintf("stalled consumer lost events within its buffer | typed subscription drained only %v of published %v (buffer %d)", got, pub, in.c.buf()))
 		}
 	}
 	if in.clock > in.idles {
@@ -343,11 +422,11 @@ func (in *inst) outcome() string {
 }
 
 func scenario(c cfg) runner.Sc {
-	name := fmt.Sprintf("c10/%s/stalled=%s/K%d/%s%d", c.Name+map[bool]string{true: "/paced"}[c.Paced], strings.Join(keys(c.Stalled), "+"), c.K, c.Mode, c.Bound)
+	name := fmt.Sprintf("c10/%s/stalled=%s/K%d/%s%d", c.Name+map[bool]string{true: "/paced"}[c.Paced]+map[bool]string{true: fmt.Sprintf("/buf%d", c.Buf)}[c.Buf > 0], strings.Join(keys(c.Stalled), "+"), c.K, c.Mode, c.Bound)
 	return runner.Sc{
 		Scenario: explore.Scenario{
 			Name: name, Mode: c.Mode, Bound: c.Bound,
-			Cfg: vs.Config{MaxSteps: 200000},
+			Cfg: vs.Config{MaxSteps: 200000, Bufsiz: c.buf()},
 			New: func() explore.Instance {
 				in := &inst{c: c}
 				return explore.Instance{Run: in.run, Check: in.check, Outcome: in.outcome}
@@ -355,6 +434,43 @@ func scenario(c cfg) runner.Sc {
 		},
 		Split: true,
 	}
+}
+
+// HealthySiblingScenarios: the part of these scenarios that is also C05's business - a subscriber (direct or
+// through a clone) whose backlog stays at one event receives every published event in order although a sibling
+// has stopped reading; only the healthy consumers and the progress of the publishing driver are judged.
+func HealthySiblingScenarios(prop string) []runner.Sc {
+	st := func(p ...string) map[string]bool {
+		m := map[string]bool{}
+		for _, x := range p {
+			m[x] = true
+		}
+		return m
+	}
+	var out []runner.Sc
+	for _, c := range []cfg{
+		{Name: "sub,sub", Tree: []hx.Spec{sp("sub", 0), sp("sub", 0)}, Stalled: st("0:sub"), K: 5, Mode: "S2", Bound: 2},
+		{Name: "sub,clone(sub)", Tree: []hx.Spec{sp("sub", 0), sp("clone", 0, sp("sub", 0))}, Stalled: st("0:sub"), K: 5, Mode: "S2", Bound: 2},
+		{Name: "clone(sub,sub)", Tree: []hx.Spec{sp("clone", 0, sp("sub", 0), sp("sub", 0))}, Stalled: st("0:clone/0:sub"), K: 5, Mode: "S2", Bound: 2},
+	} {
+		c := c
+		sc := scenario(c)
+		sc.Scenario.Name = strings.Replace(sc.Scenario.Name, "c10/", strings.ToLower(prop)+"/stalled-sibling/", 1)
+		sc.Scenario.New = func() explore.Instance {
+			in := &inst{c: c}
+			return explore.Instance{Run: in.run, Outcome: in.outcome, Check: func(r *vs.Result) []string {
+				var keep []string
+				for _, m := range in.check(r) {
+					if strings.HasPrefix(m, "healthy consumer lost events") || strings.HasPrefix(m, "stalled consumer blocks the pipeline") {
+						keep = append(keep, m)
+					}
+				}
+				return keep
+			}}
+		}
+		out = append(out, sc)
+	}
+	return out
 }
 
 func sp(kind string, f int, c ...hx.Spec) hx.Spec { return hx.Spec{Kind: kind, Filter: f, Children: c} }
@@ -391,6 +507,18 @@ func Property() runner.Property {
 			out = append(out, scenario(cfg{Name: "sub,sub", Tree: subsub, Stalled: st("0:sub"), K: 3, Mode: "S1"}))
 			for _, k := range []int{1, 3, 5} {
 				out = append(out, scenario(cfg{Name: "typed-sub(stalled),sub", Tree: []hx.Spec{sp("sub", 0)}, TypedStalled: true, K: k, Mode: "S2", Bound: 2}))
+			}
+			// slow consumers: stall through the stream, read one event, two more are published (after the read, paced:
+			// exact expectation; concurrently with it: order), drain
+			for _, tr := range []struct {
+				name string
+				tree []hx.Spec
+				st   string
+			}{{"fsub,sub", []hx.Spec{sp("fsub", 2), sp("sub", 0)}, "0:fsub"}, {"sub,sub", subsub, "0:sub"}, {"clone(sub),sub", cl, "0:clone/0:sub"}} {
+				out = append(out, scenario(cfg{Name: tr.name + "/slow", Tree: tr.tree, Stalled: st(tr.st), K: 3, ResumeRead: 1, ResumeMore: 2, Paced: true, Mode: "S2", Bound: 2}))
+				out = append(out, scenario(cfg{Name: tr.name + "/slow-concurrent", Tree: tr.tree, Stalled: st(tr.st), K: 3, ResumeRead: 1, ResumeMore: 2, ResumeConcurrent: true, Mode: "S2", Bound: 2}))
+				// a larger model buffer (4): overflow by one, read one, one more event must fit
+				out = append(out, scenario(cfg{Name: tr.name + "/slow", Tree: tr.tree, Stalled: st(tr.st), K: 5, Buf: 4, ResumeRead: 1, ResumeMore: 1, Paced: true, Mode: "S2", Bound: 1}))
 			}
 			fs := []hx.Spec{sp("fsub", 0), sp("sub", 0)}
 			for _, k := range []int{3, 5} {
